@@ -14,6 +14,7 @@ import (
 	"sort"
 	"strings"
 	"time"
+	"unicode/utf8"
 
 	"github.com/pierrec/lz4/v4"
 	"github.com/tilinna/clock"
@@ -111,6 +112,37 @@ type sd struct {
 
 func (s sd) String() string {
 	return fmt.Sprintf("{%s %s tags=%q nil=%v src=%q i=%d f=%v vals=%v sc=%v m=%q}", s.Type, s.Name, s.Tags, s.TagsNil, s.Source, s.I, s.F, s.Vals, s.SC, s.Members)
+}
+
+func (s sd) validUTF8() bool {
+	ok := utf8.ValidString(s.Name) && utf8.ValidString(s.Source)
+	for _, t := range s.Tags {
+		ok = ok && utf8.ValidString(t)
+	}
+	for _, m := range s.Members {
+		ok = ok && utf8.ValidString(m)
+	}
+	return ok
+}
+
+func (s sd) sanitized() sd {
+	fix := func(x string) string { return strings.ToValidUTF8(x, "\uFFFD") }
+	s.Name, s.Source = fix(s.Name), fix(s.Source)
+	tags := make([]string, len(s.Tags))
+	for i, t := range s.Tags {
+		tags[i] = fix(t)
+	}
+	if s.Tags != nil {
+		s.Tags = tags
+	}
+	ms := make([]string, len(s.Members))
+	for i, m := range s.Members {
+		ms[i] = fix(m)
+	}
+	if s.Members != nil {
+		s.Members = ms
+	}
+	return s
 }
 
 func buildMap(ss []sd) *gostatsd.MetricMap {
@@ -262,17 +294,56 @@ func roundTrip(tc rtcase) {
 		return
 	}
 	// first request is the forwarder's start-up no-op (an empty map): it must dispatch an empty map or nothing
-	want := canon(buildMap(tc.Series))
+	var valid, invalid []sd
+	for _, s := range tc.Series {
+		if s.validUTF8() {
+			valid = append(valid, s)
+		} else {
+			invalid = append(invalid, s.sanitized())
+		}
+	}
+	want := canon(buildMap(valid))
 	var got []string
 	for _, m := range rec.Maps {
 		if c := canon(m); c != "" {
 			got = append(got, c)
 		}
 	}
-	if len(got) != 1 || got[0] != want {
-		bad("roundtrip", fmt.Sprintf("receiver dispatched\n%s\nwant\n%s", strings.Join(got, "\n--\n"), want))
+	if len(invalid) == 0 {
+		if len(got) != 1 || got[0] != want {
+			bad("roundtrip", fmt.Sprintf("receiver dispatched\n%s\nwant\n%s", strings.Join(got, "\n--\n"), want))
+		}
+	} else {
+		// the well-formed series must arrive exactly; a series with a string protobuf cannot carry may
+		// arrive with the offending bytes replaced, or not at all - nothing else may appear
+		gotLines := map[string]bool{}
+		for _, g := range got {
+			for _, ln := range strings.Split(g, "\n") {
+				gotLines[ln] = true
+			}
+		}
+		if len(got) > 1 {
+			bad("roundtrip", fmt.Sprintf("receiver dispatched %d non-empty maps for one batch", len(got)))
+		}
+		allowed := map[string]bool{}
+		for _, ln := range strings.Split(canon(buildMap(invalid)), "\n") {
+			allowed[ln] = true
+		}
+		if want != "" {
+			for _, ln := range strings.Split(want, "\n") {
+				if !gotLines[ln] {
+					bad("roundtrip-beside-invalid-utf8", fmt.Sprintf("well-formed series %s did not arrive intact beside a series with invalid UTF-8; receiver dispatched\n%s", ln, strings.Join(got, "\n--\n")))
+				}
+				delete(gotLines, ln)
+			}
+		}
+		for ln := range gotLines {
+			if !allowed[ln] {
+				bad("roundtrip-invalid-utf8", fmt.Sprintf("receiver dispatched %s, which is neither a series given nor the sanitised form of one", ln))
+			}
+		}
 	}
-	nontrivial[want+fmt.Sprint(tc.Comp)] = struct{}{}
+	nontrivial[want+fmt.Sprint(len(invalid), tc.Comp)] = struct{}{}
 }
 
 // retryCase: event A is refused once by the upstream, event B is sent while A waits for its retry, then
@@ -359,6 +430,13 @@ func seriesMenu() []sd {
 			out = append(out, sd{Type: "s", Name: n, Tags: t, TagsNil: tn, Source: s, Members: ms})
 		}
 	}
+	// strings that are not valid UTF-8 (protobuf cannot carry them: the forwarder replaces the offending
+	// bytes; the other series of the batch must come through untouched - see roundTrip)
+	out = append(out,
+		sd{Type: "s", Name: "bad.s", Tags: []string{"t"}, Source: "h", Members: []string{"ok", "m\xff"}},
+		sd{Type: "c", Name: "bad.c", Tags: []string{"k:\xfe"}, Source: "", I: 2},
+		sd{Type: "g", Name: "bad\xc3.g", Tags: nil, TagsNil: true, Source: "h", F: 1.5},
+		sd{Type: "t", Name: "bad.t", Tags: []string{"t"}, Source: "h\x80", Vals: []F{1, 2}, SC: 8})
 	// every tag list x source on one counter
 	for _, tl := range tagLists {
 		for _, s := range []string{"", "h"} {
@@ -478,7 +556,12 @@ func runCorrupt() {
 	if err != nil {
 		panic(err)
 	}
-	menu := seriesMenu()
+	var menu []sd
+	for _, s := range seriesMenu() {
+		if s.validUTF8() {
+			menu = append(menu, s)
+		}
+	}
 	type valid struct {
 		path string
 		raw  []byte
